@@ -10,6 +10,7 @@ import (
 	"sort"
 	"strconv"
 	"strings"
+	"time"
 
 	"github.com/golang/protobuf/proto"
 	"github.com/xuperchain/xupercore/bcs/ledger/xledger/state"
@@ -29,6 +30,7 @@ import (
 // ---------------------------------------------------------------------------------------------
 
 const kvBucket = "vb"
+const acctKey = "a" // the key in the account's rule
 
 type catOut struct {
 	To  string `json:"to"`
@@ -123,14 +125,27 @@ type world struct {
 	order          []string          // token transactions in rank order (raw txid order)
 	tries          int
 	lockKeysDiffer string
+	acctTx         *pb.Transaction // $acl.NewAccount of the account x (block 1 of every node)
 }
 
-func addrOf(name string) string { return fx.GetKey(name).Address }
+// acctName is the contract account "x" of the catalogue: created on every node by a real $acl NewAccount
+// transaction confirmed in block 1 (rule: key a alone), owner of one genesis output.
+const (
+	acctAddr = "x"
+	acctName = "XC1111111111111111@xuper"
+)
+
+func addrOf(name string) string {
+	if name == acctAddr {
+		return acctName
+	}
+	return fx.GetKey(name).Address
+}
 
 // tokenRank is the order in which the lock keys of token transactions sort in the specification
 // (SpinLock!TxRank); the concretiser signs each of them until the raw txids are ordered alike, so that
 // ExtractLockKeys (sorted by the raw key string) yields the specification's order.
-var tokenRank = []string{"t0", "t1", "t2", "t3", "t4", "t8"}
+var tokenRank = []string{"t0", "t1", "t2", "t3", "t4", "t8", "ta"}
 
 func newWorld(cat *catalog, checkKeys bool) (*world, error) {
 	pre := map[string]string{}
@@ -140,6 +155,17 @@ func newWorld(cat *catalog, checkKeys bool) (*world, error) {
 		order = append(order, o.To)
 	}
 	g := fx.Genesis(fx.GenesisOpts{Predist: pre, PredistList: order, Award: strconv.FormatInt(cat.Award, 10), Window: 0, Miner: "m"})
+	// the genesis output of the account is predistributed to the account's name (fx.Genesis knows keys only)
+	var gm map[string]interface{}
+	if err := json.Unmarshal(g, &gm); err != nil {
+		return nil, err
+	}
+	for _, pd := range gm["predistribution"].([]interface{}) {
+		if m := pd.(map[string]interface{}); m["address"] == fx.GetKey(acctAddr).Address {
+			m["address"] = acctName
+		}
+	}
+	g, _ = json.Marshal(gm)
 	w := &world{cat: cat, genesis: g, txs: map[string]*pb.Transaction{}, names: map[string]string{}}
 	rtx, err := txn.GenerateRootTx(g)
 	if err != nil {
@@ -243,6 +269,7 @@ func (w *world) tx(name string) (*pb.Transaction, error) {
 func (w *world) build(name string, c catTx, try int) (*pb.Transaction, error) {
 	tx := &pb.Transaction{Version: 3, Nonce: fmt.Sprintf("n-%s-%d", name, try), Timestamp: 1, Desc: []byte(name)}
 	signers := []string{}
+	byAcct := false
 	addSigner := func(a string) {
 		for _, x := range signers {
 			if x == a {
@@ -259,7 +286,12 @@ func (w *world) build(name string, c catTx, try int) (*pb.Transaction, error) {
 		o := w.outOf(r.name, r.off)
 		tx.TxInputs = append(tx.TxInputs, &protos.TxInput{RefTxid: ref.Txid, RefOffset: int32(r.off),
 			FromAddr: []byte(addrOf(o.To)), Amount: big.NewInt(o.Amt).Bytes()})
-		addSigner(o.To)
+		if o.To == acctAddr {
+			byAcct = true
+			addSigner(acctKey) // the account's rule: key a alone; the signature is made for "<account>/<address of a>"
+		} else {
+			addSigner(o.To)
+		}
 	}
 	for _, o := range c.Outs {
 		tx.TxOutputs = append(tx.TxOutputs, &protos.TxOutput{ToAddr: []byte(addrOf(o.To)), Amount: big.NewInt(o.Amt).Bytes()})
@@ -302,7 +334,11 @@ func (w *world) build(name string, c catTx, try int) (*pb.Transaction, error) {
 	}
 	tx.Initiator = addrOf(signers[0])
 	for _, a := range signers {
-		tx.AuthRequire = append(tx.AuthRequire, addrOf(a))
+		if byAcct && a == acctKey {
+			tx.AuthRequire = append(tx.AuthRequire, acctName+"/"+addrOf(a))
+		} else {
+			tx.AuthRequire = append(tx.AuthRequire, addrOf(a))
+		}
 	}
 	for i, a := range signers {
 		k := fx.GetKey(a)
@@ -370,9 +406,11 @@ func (w *world) txName(txid []byte) string {
 // ---------------------------------------------------------------------------------------------
 
 type sim struct {
-	w    *world
-	node *fx.Node
-	blk2 *pb.InternalBlock
+	w       *world
+	node    *fx.Node
+	base    *pb.InternalBlock // block 1 = [award, account creation]: the tip the requests start on
+	blk2    *pb.InternalBlock
+	recDone chan struct{} // one token per finished recovery of a walk
 }
 
 func staleErr(err error) bool {
@@ -419,14 +457,18 @@ func newSim(w *world, name string, sc []string) (*sim, error) {
 	if err != nil {
 		return nil, err
 	}
-	s := &sim{w: w, node: node}
+	s := &sim{w: w, node: node, recDone: make(chan struct{}, 16)}
+	recDone.Store(s.recDone)
+	if err := s.setupAccount(); err != nil {
+		return nil, err
+	}
 	for _, p := range w.cat.Fam[w.cat.famOf(sc)].Pre {
 		if c, e := s.submit(p, nil); c != "admit" {
 			return nil, fmt.Errorf("prelude transaction %s was not admitted: %s %s", p, c, e)
 		}
 	}
 	for _, r := range sc {
-		if rq := w.cat.Req[r]; rq.Ty == "play" && s.blk2 == nil {
+		if rq := w.cat.Req[r]; exclusive(rq.Ty) && s.blk2 == nil {
 			if err := s.mkBlock(rq.B); err != nil {
 				return nil, err
 			}
@@ -435,7 +477,7 @@ func newSim(w *world, name string, sc []string) (*sim, error) {
 	return s, nil
 }
 
-// mkBlock formats the peer block 2 = [award, txs...] on the root block and confirms it in the ledger.
+// mkBlock formats the peer block 2 = [award, txs...] on block 1 and confirms it in the ledger.
 func (s *sim) mkBlock(names []string) error {
 	aw := &pb.Transaction{Version: 3, Coinbase: true, Desc: []byte("aw2"), Timestamp: 1002}
 	aw.TxOutputs = []*protos.TxOutput{{ToAddr: []byte(addrOf("m")), Amount: big.NewInt(s.w.cat.Award).Bytes()}}
@@ -446,7 +488,7 @@ func (s *sim) mkBlock(names []string) error {
 		list = append(list, proto.Clone(s.w.txs[n]).(*pb.Transaction))
 	}
 	m := fx.GetKey("m")
-	root := s.node.RootBlk
+	root := s.base
 	blk, err := s.node.Ledger.FormatMinerBlock(list, []byte(m.Address), m.Priv, 2, 0, 0, root.Blockid, 0, s.node.State.GetTotal(), nil, nil, root.Height+1)
 	if err != nil {
 		return err
@@ -466,14 +508,34 @@ type obs struct {
 	Total int64             `json:"total"`
 	Ptr   int               `json:"ptr"`
 	Bal   []int64           `json:"bal"`
+	Free  [][]interface{}   `json:"free"` // outputs a selection without locking is offered (not selection-locked)
+}
+
+// projectAfterHang: the queries themselves may wait for a lock that a hanging request holds.
+func (s *sim) projectAfterHang() obs {
+	c := make(chan obs, 1)
+	go func() { c <- s.project() }()
+	select {
+	case o := <-c:
+		return o
+	case <-time.After(stuckTimeout):
+	}
+	o := obs{Utxo: [][]interface{}{}, Ver: map[string]string{}, Pool: []string{"err"}, Bal: []int64{}, Free: [][]interface{}{}, Total: -1, Ptr: -1}
+	for _, k := range s.w.cat.Keys {
+		o.Ver[k] = "err"
+	}
+	for range s.w.cat.Addrs {
+		o.Bal = append(o.Bal, -1)
+	}
+	return o
 }
 
 // project issues the public queries the property names.
 func (s *sim) project() obs {
 	st := s.node.State
-	o := obs{Utxo: [][]interface{}{}, Ver: map[string]string{}, Pool: []string{}, Bal: []int64{}}
+	o := obs{Utxo: [][]interface{}{}, Ver: map[string]string{}, Pool: []string{}, Bal: []int64{}, Free: [][]interface{}{}}
 	switch {
-	case bytes.Equal(st.GetLatestBlockid(), s.node.RootBlk.Blockid):
+	case bytes.Equal(st.GetLatestBlockid(), s.base.Blockid):
 		o.Ptr = 1
 	case s.blk2 != nil && bytes.Equal(st.GetLatestBlockid(), s.blk2.Blockid):
 		o.Ptr = 2
@@ -495,6 +557,11 @@ func (s *sim) project() obs {
 	addrName := map[string]string{}
 	for _, a := range s.w.cat.Addrs {
 		addrName[addrOf(a)] = a
+		if ins, _, _, err := st.SelectUtxosBySize(addrOf(a), false, false); err == nil {
+			for _, in := range ins {
+				o.Free = append(o.Free, []interface{}{s.w.txName(in.RefTxid), int(in.RefOffset)})
+			}
+		}
 	}
 	it := st.GetLDB().NewIteratorWithPrefix([]byte(pb.UTXOTablePrefix))
 	for it.Next() {
@@ -545,7 +612,7 @@ func (s *sim) known(name string, off int, owner string, amt *big.Int) bool {
 	switch {
 	case name == "g":
 		outs = s.w.cat.Genesis
-	case name == "aw2":
+	case name == "aw1" || name == "aw2":
 		outs = []catOut{{"m", s.w.cat.Award}}
 	default:
 		c, ok := s.w.cat.Tx[name]
